@@ -9,7 +9,7 @@
 //!
 //! Output: one line `MISMATCH <scenario> :: <what>` per disagreement, then `MUTCB <scenarios> <mismatches>`.
 use minivec::MiniVec;
-use std::cell::RefCell;
+use std::cell::{Cell, RefCell};
 
 thread_local! {
   static DROPS: RefCell<Vec<u32>> = RefCell::new(Vec::new());
@@ -241,6 +241,67 @@ fn dk_minivec(n: usize, code: u64) -> Outcome {
   Outcome { yields: vec![], contents: out_c, drops: drops() }
 }
 
+
+// ---------- elements without drop glue, equality that answers by script ----------
+// `P` is neither `Copy` nor `Drop`: a vector holding the same `P` twice has duplicated a value it was given once.
+// Its `==` / `!=` answer by script (one digit per call), so `dedup`, `dedup_by`, `dedup_by_key`, `retain` and
+// `remove_item` see a relation that is inconsistent between calls. The contents are then unspecified, but they are
+// distinct elements of the original vector, in their original order.
+thread_local! {
+  static EQ_SCRIPT: Cell<(u64, u32)> = Cell::new((0, 0));
+}
+struct P {
+  id: usize,
+}
+fn eq_answer() -> bool {
+  EQ_SCRIPT.with(|c| {
+    let (code, k) = c.get();
+    c.set((code, k + 1));
+    (code >> (k % 64)) & 1 == 1
+  })
+}
+impl PartialEq for P {
+  fn eq(&self, _o: &P) -> bool {
+    eq_answer()
+  }
+  #[allow(clippy::partialeq_ne_impl)]
+  fn ne(&self, _o: &P) -> bool {
+    eq_answer()
+  }
+}
+fn plain(total: &mut u64, bad: &mut u64) {
+  for n in 0..=5usize {
+    for code in 0..(1u64 << (2 * n).min(10)) {
+      for which in 0..4 {
+        let mut v: MiniVec<P> = MiniVec::new();
+        for id in 0..n {
+          v.push(P { id });
+        }
+        EQ_SCRIPT.with(|c| c.set((code, 0)));
+        let name = ["dedup", "dedup_by", "remove_item", "retain"][which];
+        match which {
+          0 => v.dedup(),
+          1 => v.dedup_by(|a, b| a == b),
+          2 => {
+            let _ = v.remove_item(&P { id: 99 });
+          }
+          _ => v.retain(|x| *x == P { id: 98 }),
+        }
+        *total += 1;
+        let ids: Vec<usize> = if v.len() <= v.capacity() { v.iter().map(|p| p.id).collect() } else { vec![usize::MAX] };
+        let ok = ids.windows(2).all(|w| w[0] < w[1]) && ids.iter().all(|i| *i < n);
+        if !ok {
+          *bad += 1;
+          if *bad <= 40 {
+            println!("MISMATCH {} plain-data n={} equality-script={:b} :: the vector of the distinct elements 0..{} now holds {:?} (an element twice, out of order, or one that was never in it)", name, n, code, n, ids);
+          }
+        }
+        core::mem::forget(v); // no drop glue: nothing to run; a corrupted length must not be walked
+      }
+    }
+  }
+}
+
 fn report(name: &str, r: &Outcome, m: &Outcome, total: &mut u64, bad: &mut u64) {
   *total += 1;
   let once = m.drops.iter().all(|&c| c == 1);
@@ -290,6 +351,250 @@ pub fn run() -> i32 {
       report(&format!("dedup_by_key n={} script={}", n, code), &r, &m, &mut total, &mut bad);
     }
   }
+  plain(&mut total, &mut bad);
   println!("MUTCB {} {}", total, bad);
+  if bad == 0 { 0 } else { 1 }
+}
+
+// ---------- `--shifty`: arguments that do not sit still, and elements wider than a page ----------
+//
+// (1) `drain` / `splice` take any `RangeBounds<usize>`; the trait does not promise that `start_bound()` / `end_bound()`
+// answer the same thing twice. Whatever is validated must be what is used: for every scripted pair of answer sequences
+// the outcome on the `MiniVec` (panic or not, what is yielded, what the vector holds, destructor runs) must be the
+// outcome `Vec` produces for ONE (start answer, end answer) pair out of the answers given — any pair, so an
+// implementation is free to ask more than once as long as it validates what it uses.
+// (2) growth: element types of 1 byte up to 70 000 bytes; after every push `len() <= capacity()`, the contents are the
+// `Vec`'s, `reserve(k)` returns with `capacity() >= len() + k`.
+use core::ops::{Bound, RangeBounds};
+
+struct Shifty {
+  starts: [Bound<usize>; 2],
+  ends: [Bound<usize>; 2],
+  s: Cell<usize>,
+  e: Cell<usize>,
+}
+fn as_ref(b: &Bound<usize>) -> Bound<&usize> {
+  match b {
+    Bound::Included(n) => Bound::Included(n),
+    Bound::Excluded(n) => Bound::Excluded(n),
+    Bound::Unbounded => Bound::Unbounded,
+  }
+}
+impl RangeBounds<usize> for Shifty {
+  fn start_bound(&self) -> Bound<&usize> {
+    let k = self.s.get();
+    self.s.set(k + 1);
+    as_ref(&self.starts[k.min(1)])
+  }
+  fn end_bound(&self) -> Bound<&usize> {
+    let k = self.e.get();
+    self.e.set(k + 1);
+    as_ref(&self.ends[k.min(1)])
+  }
+}
+
+#[derive(Debug, PartialEq)]
+struct ROutcome {
+  panicked: bool,
+  yields: Vec<(usize, i64)>,
+  contents: Vec<(usize, i64)>,
+  drops: Vec<u32>,
+}
+
+/// ids are allocated in the same order on both sides: n elements, then `repl` replacements
+fn range_reference(n: usize, s: Bound<usize>, e: Bound<usize>, splice: bool, consume: bool) -> ROutcome {
+  reset();
+  let mut v: Vec<E> = Vec::with_capacity(n);
+  for i in 0..n as i64 {
+    v.push(fresh(i));
+  }
+  let repl: Vec<E> = if splice { vec![fresh(70), fresh(71), fresh(72)] } else { vec![] };
+  let mut yields: Vec<E> = Vec::new();
+  let panicked = {
+    let vref = &mut v;
+    let yref = &mut yields;
+    std::panic::catch_unwind(std::panic::AssertUnwindSafe(move || {
+      if splice {
+        let mut it = vref.splice((s, e), repl);
+        if consume {
+          for x in &mut it {
+            yref.push(x);
+          }
+        }
+      } else {
+        let mut it = vref.drain((s, e));
+        if consume {
+          for x in &mut it {
+            yref.push(x);
+          }
+        }
+      }
+    }))
+    .is_err()
+  };
+  let out_y = show(&yields);
+  let out_c = show(&v);
+  drop(yields);
+  drop(v);
+  ROutcome { panicked, yields: out_y, contents: out_c, drops: drops() }
+}
+fn range_minivec(n: usize, r: Shifty, splice: bool, consume: bool) -> ROutcome {
+  reset();
+  let mut v: MiniVec<E> = MiniVec::with_capacity(n);
+  for i in 0..n as i64 {
+    v.push(fresh(i));
+  }
+  let repl: Vec<E> = if splice { vec![fresh(70), fresh(71), fresh(72)] } else { vec![] };
+  let mut yields: Vec<E> = Vec::new();
+  let panicked = {
+    let vref = &mut v;
+    let yref = &mut yields;
+    std::panic::catch_unwind(std::panic::AssertUnwindSafe(move || {
+      if splice {
+        let mut it = vref.splice(r, repl);
+        if consume {
+          for x in &mut it {
+            yref.push(x);
+          }
+        }
+      } else {
+        let mut it = vref.drain(r);
+        if consume {
+          for x in &mut it {
+            yref.push(x);
+          }
+        }
+      }
+    }))
+    .is_err()
+  };
+  let out_y = show(&yields);
+  let out_c = if v.len() <= v.capacity() { show(&v) } else { vec![(usize::MAX, v.len() as i64)] };
+  if v.len() > v.capacity() {
+    // the block does not hold what the length claims: do not walk it
+    core::mem::forget(v);
+  } else {
+    drop(v);
+  }
+  drop(yields);
+  ROutcome { panicked, yields: out_y, contents: out_c, drops: drops() }
+}
+
+fn bound_options(n: usize) -> Vec<Bound<usize>> {
+  let mut o = vec![Bound::Unbounded, Bound::Included(0), Bound::Excluded(n), Bound::Excluded(n + 2), Bound::Included(1)];
+  if n > 2 {
+    o.push(Bound::Excluded(n - 2));
+  }
+  o
+}
+
+fn growth<const N: usize>(total: &mut u64, bad: &mut u64) {
+  println!("SCEN growth elem-bytes={}", N);
+  let mut fail = |what: String| {
+    *bad += 1;
+    println!("MISMATCH growth elem-bytes={} :: {}", N, what);
+  };
+  *total += 1;
+  let mut v: MiniVec<[u8; N]> = MiniVec::new();
+  let mut r: Vec<[u8; N]> = Vec::new();
+  for i in 0..7u8 {
+    let mut x = [i; N];
+    x[N - 1] = i.wrapping_mul(3);
+    if v.len() == v.capacity() {
+      // what the next push is about to ask of the growth policy
+      let before = v.capacity();
+      v.reserve(1);
+      if v.capacity() <= before {
+        fail(format!("reserve(1) on a full vector of capacity {} left capacity {}", before, v.capacity()));
+        return;
+      }
+    }
+    v.push(x);
+    r.push(x);
+    if v.len() > v.capacity() {
+      fail(format!("after {} pushes len {} > capacity {}", i + 1, v.len(), v.capacity()));
+      core::mem::forget(v);
+      return;
+    }
+    if v.as_slice() != r.as_slice() {
+      fail(format!("after {} pushes the contents differ from Vec's", i + 1));
+      return;
+    }
+  }
+  // the same without the reserve in front: push alone has to make room
+  let mut w: MiniVec<[u8; N]> = MiniVec::with_capacity(1);
+  for i in 0..5u8 {
+    let cap = w.capacity();
+    if w.len() == cap {
+      // predicted by the public contract only: after the push there must be room for it
+    }
+    w.push([i; N]);
+    if w.len() > w.capacity() {
+      fail(format!("with_capacity(1) then {} pushes: len {} > capacity {}", i + 1, w.len(), w.capacity()));
+      core::mem::forget(w);
+      return;
+    }
+  }
+  if w.iter().enumerate().any(|(i, x)| x[0] != i as u8 || x[N - 1] != i as u8) {
+    fail("with_capacity(1) then 5 pushes: contents differ".to_string());
+  }
+}
+
+pub fn run_shifty() -> i32 {
+  std::panic::set_hook(Box::new(|_| {}));
+  let (mut total, mut bad) = (0u64, 0u64);
+  growth::<1>(&mut total, &mut bad);
+  growth::<24>(&mut total, &mut bad);
+  growth::<1024>(&mut total, &mut bad);
+  growth::<1025>(&mut total, &mut bad);
+  growth::<4096>(&mut total, &mut bad);
+  growth::<4097>(&mut total, &mut bad);
+  growth::<5000>(&mut total, &mut bad);
+  growth::<70000>(&mut total, &mut bad);
+  'outer: for n in [0usize, 3, 8] {
+    let opts = bound_options(n);
+    for splice in [false, true] {
+      for consume in [true, false] {
+        for s0 in &opts {
+          for s1 in &opts {
+            for e0 in &opts {
+              for e1 in &opts {
+                let name = format!("{} n={} start-answers=[{:?},{:?}] end-answers=[{:?},{:?}] consume={}",
+                                   if splice { "splice" } else { "drain" }, n, s0, s1, e0, e1, consume);
+                println!("SCEN {}", name);
+                total += 1;
+                let m = range_minivec(n, Shifty { starts: [*s0, *s1], ends: [*e0, *e1], s: Cell::new(0), e: Cell::new(0) }, splice, consume);
+                let mut ok = false;
+                let mut refs = Vec::new();
+                for s in [s0, s1] {
+                  for e in [e0, e1] {
+                    let r = range_reference(n, *s, *e, splice, consume);
+                    if r == m {
+                      ok = true;
+                    }
+                    refs.push(r);
+                  }
+                }
+                // whoever panicked may have leaked (a destructor count of 0 is fine then); nobody is dropped twice
+                let once = m.drops.iter().all(|&c| c == 1 || (m.panicked && c == 0));
+                if !ok && m.panicked && refs.iter().any(|r| r.panicked) {
+                  // a refusal is a refusal: which elements a refused call leaks is not compared
+                  ok = m.contents == refs.iter().find(|r| r.panicked).unwrap().contents;
+                }
+                if !ok || !once {
+                  bad += 1;
+                  println!("MISMATCH {} :: MiniVec {:?} / Vec on the first answers {:?}", name, m, refs[0]);
+                  if bad >= 8 {
+                    break 'outer;
+                  }
+                }
+              }
+            }
+          }
+        }
+      }
+    }
+  }
+  println!("SHIFTY {} {}", total, bad);
   if bad == 0 { 0 } else { 1 }
 }
